@@ -27,6 +27,7 @@ type c08Model struct {
 	balPre  map[string]sdkmath.Int
 	ercPre  map[string]*big.Int
 	phase   int
+	cycle   int // 0 undecided, 1 this run drives the withdraw-and-redeposit cycle of the externally-owned token, 2 not
 }
 
 func newC08() *c08Model { return &c08Model{holders: map[string]bool{}, broken: map[string]bool{}} }
@@ -425,6 +426,17 @@ func (e EvmEngine) genC08(r *Run) Step {
 			return s
 		}
 	}
+	if m.cycle == 0 {
+		m.cycle = 2
+		if r.Pct(35) {
+			m.cycle = 1
+		}
+	}
+	if m.cycle == 1 && r.Pct(40) {
+		if s, ok := e.c08CycleStep(r); ok {
+			return s
+		}
+	}
 	u := r.Rng.IntN(st.NUsers)
 	signer := KeyName("user", u)
 	denoms := []string{"usdt", "FX", "tst"}
@@ -453,6 +465,7 @@ func (e EvmEngine) genC08(r *Run) Step {
 			}
 			if holder >= 0 {
 				u, signer = holder, KeyName("user", holder)
+				r.Probe("tst-cycle:convert-held-coin-to-module")
 			} else {
 				alias := cctypes.NewBridgeDenom(ch.Name, ExtAddrStr(ch.Name, tokenContract(ch.Name, "TST")))
 				stock := w.App.BankKeeper.GetBalance(w.Ctx(), authtypes.NewModuleAddress(ch.Name), alias).Amount
@@ -461,8 +474,10 @@ func (e EvmEngine) genC08(r *Run) Step {
 					if a > 2000 {
 						a = 1 + r.Rng.Int64N(2000)
 					}
+					r.Probe("tst-cycle:redeposit")
 					return Step{Kind: "ext", A: A("chain", ch.Name, "op", "send_to_fx", "symbol", "TST", "user", r.Rng.IntN(st.NUsers), "amount", a, "target", "")}
 				}
+				r.Probe("tst-cycle:withdraw")
 				return blk(pc("token:TST", "approve", cctypes.GetAddress().Hex(), "1000000000000000"),
 					pc("crosschain", "crossChain", "$TST", fmt.Sprintf("$ext%d", r.Rng.IntN(5)), fmt.Sprint(100+r.Rng.IntN(3000)), "2", "$target", ""))
 			}
@@ -552,6 +567,63 @@ func (e EvmEngine) genC08(r *Run) Step {
 		gas := []uint64{20_000_000, 20_000_000, 400_000, 150_000}[r.Rng.IntN(4)]
 		return Step{Kind: "run", A: A("prog", idx[len(idx)-1-r.Rng.IntN(min(len(idx), 3))], "sender", signer, "ladder", "", "commit", gas)}
 	}
+}
+
+// c08CycleStep drives the only way coins of the externally-owned token come into users' hands - withdraw
+// through the bridge, deposit back with an empty target - and then converts them to addresses that must
+// not receive (module accounts) and to ordinary ones.
+func (e EvmEngine) c08CycleStep(r *Run) (Step, bool) {
+	st := bst(r)
+	w := r.W
+	ch := st.Chains[0]
+	blk := func(txs ...Tx) Step { return Step{Kind: "block", DtMs: 5000, N: 1, Txs: txs} }
+	holder := -1
+	for i := 0; i < st.NUsers; i++ {
+		if w.App.BankKeeper.GetBalance(w.Ctx(), w.Key("user", i).Acc(), "tst").Amount.IsPositive() {
+			holder = i
+		}
+	}
+	if holder >= 0 {
+		bal := w.App.BankKeeper.GetBalance(w.Ctx(), w.Key("user", holder).Acc(), "tst").Amount
+		amt := int64(1 + r.Rng.IntN(500))
+		if bal.IsInt64() && bal.Int64() < amt {
+			amt = bal.Int64()
+		}
+		recv := w.Key("user", r.Rng.IntN(st.NUsers)).Hex()
+		if r.Pct(70) {
+			mod := []string{erc20types.ModuleName, erc20types.ModuleName, ch.Name, "distribution", "gov"}[r.Rng.IntN(5)]
+			recv = common.BytesToAddress(authtypes.NewModuleAddress(mod))
+			r.Probe("tst-cycle:convert-held-coin-to-module")
+		} else {
+			r.Probe("tst-cycle:convert-held-coin-to-user")
+		}
+		return blk(Tx{K: "convert_coin", S: KeyName("user", holder), A: A("denom", "tst", "amount", amt, "receiver", recv.Hex())}), true
+	}
+	v := w.ViewChain(w.Ctx(), ch.Name)
+	if len(v.Pending) > 0 {
+		return blk(Tx{K: "execute_claim_all", S: KeyName("user", r.Rng.IntN(st.NUsers))}), true
+	}
+	if txs := e.B.genClaims(r, ch, v); len(txs) > 0 {
+		return blk(txs...), true
+	}
+	alias := cctypes.NewBridgeDenom(ch.Name, ExtAddrStr(ch.Name, tokenContract(ch.Name, "TST")))
+	stock := w.App.BankKeeper.GetBalance(w.Ctx(), authtypes.NewModuleAddress(ch.Name), alias).Amount
+	if stock.IsPositive() {
+		a := int64(2000)
+		if stock.IsInt64() && stock.Int64() < a {
+			a = stock.Int64()
+		}
+		a = 1 + r.Rng.Int64N(a)
+		r.Probe("tst-cycle:redeposit")
+		return Step{Kind: "ext", A: A("chain", ch.Name, "op", "send_to_fx", "symbol", "TST", "user", r.Rng.IntN(st.NUsers), "amount", a, "target", "")}, true
+	}
+	signer := KeyName("user", r.Rng.IntN(st.NUsers))
+	pc := func(t, meth string, args ...string) Tx {
+		return Tx{K: "pcall", S: signer, A: A("t", t, "m", meth, "args", strings.Join(args, "|")), Gas: 3_000_000}
+	}
+	r.Probe("tst-cycle:withdraw")
+	return blk(pc("token:TST", "approve", cctypes.GetAddress().Hex(), "1000000000000000"),
+		pc("crosschain", "crossChain", "$TST", fmt.Sprintf("$ext%d", r.Rng.IntN(5)), fmt.Sprint(100+r.Rng.IntN(3000)), "2", "$target", "")), true
 }
 
 // genMixProgram: a contract touches a token directly and, in the same transaction, calls a
